@@ -18,9 +18,9 @@ Inductive shres := ShOk (ws : list str) | ShUnterminated | ShExpansion.
 Definition sh_special (c : N) : bool :=
   (c =? 36) || (c =? 96) || (c =? 59) || (c =? 38) || (c =? 124) || (c =? 60) || (c =? 62) ||
   (c =? 40) || (c =? 41) || (c =? 35) || (c =? 42) || (c =? 63) || (c =? 91) || (c =? 126) ||
-  (c =? 123) || (c =? 125) || (c =? 33).
+  (c =? 123) || (c =? 125) || (c =? 33) || (c =? 10).   (* an unquoted newline ends the command *)
 
-Definition sh_blank (c : N) : bool := (c =? 32) || (c =? 9) || (c =? 10).
+Definition sh_blank (c : N) : bool := (c =? 32) || (c =? 9).
 
 (* inside double quotes backslash escapes only these *)
 Definition dq_escapable (c : N) : bool := (c =? 36) || (c =? 96) || (c =? 34) || (c =? 92).
